@@ -309,12 +309,14 @@ public:
     for (auto &a : argv) av.push_back(a.c_str());
     av.push_back(nullptr);
     int argc = (int)argv.size();
+    sim::simclock::activate(1000000000ull, 4242);
     r.t = sim::runTrapped([&]() -> int {
       if (tool == "xcmp") return xcmp_main(argc, av.data());
       if (tool == "hexasm") return hexasm_main(argc, av.data());
       if (tool == "xrun") return xrun_main(argc, (char **)av.data());
       return hexsim_main(argc, av.data());
     }, 30);
+    sim::simclock::deactivate();
     r.out = ss.out.data; r.err = ss.err.data; r.consumed = ss.in.consumed();
     ss.detach();
     r.after = sim::fs::snapshot();
